@@ -506,7 +506,12 @@ func (g *Values) Fill(v reflect.Value) {
 			return
 		}
 		for i := 0; i < v.NumField(); i++ {
-			if v.Type().Field(i).PkgPath != "" {
+			if f := v.Type().Field(i); f.PkgPath != "" {
+				if f.Anonymous && f.Type.Kind() == reflect.Struct {
+					// an embedded struct whose type name is unexported: its exported
+					// fields are promoted and settable
+					g.Fill(v.Field(i))
+				}
 				continue
 			}
 			if t.Chance(1, 5) {
